@@ -271,6 +271,44 @@ def explore(ctx, scale=1.0):
                     mreqs.append({"op": "messages", "root": core.enc(d2), "paths": paths}); mkeep.append((text, fault, paths, real))
                 except TypeError:
                     pass
+    # ---------------- several roots in one call: each root's messages carry that root's own positions ----------------
+    # (a list of root dictionaries is validated root by root; anything remembered from one root must not leak into the next)
+    plain_docs = [t for t, k in docs if k in ("commented", "nested-singleton") and len(t) < 4000]
+    for _ in range(int((300 if ctx.thorough else 40) * scale)):
+        a, b = rng.choice(plain_docs), rng.choice(plain_docs)
+        if rng.random() < .6:
+            b = a                       # the same block twice: identical paths in both roots
+        text = a.rstrip("\n") + "\n" + rng.choice(["", "\n", "# between\n"]) + b
+        try:
+            roots = mappyfile.loads(text, include_position=True)
+        except Exception:
+            continue
+        if not isinstance(roots, list) or len(roots) < 2 or len({r.get("__type__") for r in roots}) != 1:
+            continue
+        rt = roots[0]["__type__"]
+        faulted = []
+        for r in roots:
+            r2 = copy.deepcopy(r)
+            cands = [(pth, o) for pth, o in objects(r2) if o.get("__type__") not in ("metadata", "validation", "values", "connectionoptions")]
+            if rng.random() < .5 or len(cands) < 2:
+                r2["zzunknown"] = 1
+            else:
+                pth, o = cands[min(1, len(cands) - 1)]
+                o["zzunknown"] = 1
+            faulted.append(r2)
+        try:
+            together = Validator().validate(copy.deepcopy(faulted), schema_name=rt)
+            one_by_one = []
+            for r2 in faulted:
+                one_by_one += Validator().validate(copy.deepcopy(r2), schema_name=rt)
+        except Exception as ex:
+            ctx.violation(f"validate-raises:{type(ex).__name__}", f"validate raises {type(ex).__name__} on a list of root dictionaries", {"text": text})
+            continue
+        ctx.case(("roots", text), True); ctx.count("multi-root validate")
+        key = lambda ms: [(m["message"], m.get("line"), m.get("column")) for m in ms]
+        if key(together) != key(one_by_one):
+            ctx.violation("message-position:roots", "validating a list of root dictionaries in one call gives other messages / positions than validating them one by one",
+                          {"text": text, "together": key(together)[:8], "one_by_one": key(one_by_one)[:8]})
     for (text, real), ans in zip(tkeep, core.lean_call(treqs)):
         if ans.get("err") == "UNSUPPORTED":
             ctx.count("corr:model UNSUPPORTED"); continue
